@@ -205,13 +205,33 @@ func PreparedActions() []*explore.Action {
 
 // PreparedNoOrdersSeed is the prepared state without the two sell messages: a base whose construction
 // does not itself depend on the marketplace parameters (C18 exercises those through its own operations).
-func PreparedNoOrdersSeed(name string) explore.Seed {
+func PreparedNoOrdersSeed(name string, extra ...*explore.Action) explore.Seed {
 	return explore.Seed{Name: name, Build: func(c *chain.Chain) sdk.Context {
 		ctx := c.BaseContext(chain.T0, 1)
 		c.InitGenesis(ctx, chain.Genesis{Balances: StdFunds()})
 		acts := PreparedActions()
-		return mustRun(c, ctx, acts[:len(acts)-2]...)
+		ctx = mustRun(c, ctx, acts[:len(acts)-2]...)
+		return mustRun(c, ctx, extra...)
 	}}
+}
+
+// BioBasket is the basket of the three-letter credit type BIO (its denom has a four-letter middle part).
+const (
+	BioBasket = "eco.uBIO.BNCT"
+	BioBatch  = "BIO01-001-20200101-20210101-001"
+)
+
+// ThreeLetterTypeActions add the credit type BIO through governance and build a class, project, batch
+// (issued to B) and basket of that type.
+func ThreeLetterTypeActions() []*explore.Action {
+	a := A.String()
+	return []*explore.Action{
+		Msg("gov:add-credit-type BIO", &basetypes.MsgAddCreditType{Authority: G.String(), CreditType: &basetypes.CreditType{Abbreviation: "BIO", Name: "biodiversity", Unit: "ha", Precision: 6}}),
+		Msg("seed:class BIO01", &basetypes.MsgCreateClass{Admin: a, Issuers: []string{a}, Metadata: "m", CreditTypeAbbrev: "BIO", Fee: pcoin("uregen", 20)}),
+		Msg("seed:project BIO01-001", &basetypes.MsgCreateProject{Admin: a, ClassId: "BIO01", Metadata: "m", Jurisdiction: "US-WA"}),
+		CreateBatch(A, "BIO01-001", date(2020, 1, 1), date(2021, 1, 1), true, nil, Iss(B, "10", "0")),
+		Msg("seed:basket BNCT", &baskettypes.MsgCreate{Curator: a, Name: "BNCT", DisableAutoRetire: true, CreditTypeAbbrev: "BIO", AllowedClasses: []string{"BIO01"}, Fee: sdk.NewCoins(coin("uregen", 10))}),
+	}
 }
 
 // PreparedSeed builds the prepared state.
